@@ -74,6 +74,7 @@ class C03(Check):
             self.corr_patterns(ctx, cssutils, rng)
             self.corr_functions(ctx, cssutils, rng)
             self.corr_safe(ctx, cssutils, rng)
+            self.corr_image(ctx, cssutils, rng)
             S.init(cssutils)
             self.parser = cssutils.CSSParser(fetcher=lambda url: (None, ''))
             from cssutils import tokenize2
@@ -277,16 +278,65 @@ class C03(Check):
                     ctx.disagree('Safe (%s) is exactly "written value reads back" on the implementation' % which,
                                  {'stored': v, 'written': w}, {'reread': back, 'ok': ok}, mir)
 
+    # -- (3b) what the parser can store: every short STRING token text --------------------------------
+    IMAGE_ALPHABET = ['\\', '"', "'", 'a', 'g', ' ', '\n', '2', '7', '5', 'c']
+
+    def corr_image(self, ctx, cssutils, rng):
+        """exhaustive small scope: for every STRING token text q+body+q with body over an 11-letter alphabet, the stored
+        value (implementation) equals strD (model), and it is unsafe only where the documented source regions say so"""
+        import itertools
+        from cssutils import helper
+        tk = self.tk if hasattr(self, 'tk') else None
+        if tk is None:
+            from cssutils import tokenize2
+            tk = tokenize2.Tokenizer()
+        lines, cases = [], []
+        n_max = ctx.n(5, 6)
+        bodies = []
+        for n in range(0, n_max + 1):
+            for tup in itertools.product(self.IMAGE_ALPHABET, repeat=n):
+                bodies.append((''.join(tup), n == n_max and n_max > 4))
+        # around the two source regions, three more characters on either side
+        for core in ('\\\\\\a ', '\\\\\\a', '\\5c\\a ', '\\\\\\\n\\a ', '\\\\\\22 ', '\\5c \\22 ', '\\\\\\d\n', '\\"'):
+            for a in range(0, 3):
+                for b in range(0, 3 - a + 1):
+                    for pre in itertools.product(self.IMAGE_ALPHABET, repeat=a):
+                        for post in itertools.product(self.IMAGE_ALPHABET, repeat=b):
+                            bodies.append((''.join(pre) + core + ''.join(post), False))
+        for body, one_quote_only in bodies:
+            if True:
+                for q in ('"', "'"):
+                    if one_quote_only and q == "'":
+                        continue
+                    t = q + body + q
+                    toks = list(tk.tokenize(t))
+                    if len(toks) != 1 or toks[0][0] != 'STRING':
+                        continue
+                    v = helper.stringvalue(toks[0][1])
+                    cls = C.str_class(v)
+                    ctx.case(key=('image', t), nontrivial='\\' in body, kind='image:' + (cls or 'safe'))
+                    if cls is not None and not (C.region_escaped_dquote(body, q) or C.region_clean_after_unescape(body)):
+                        ctx.disagree('the two documented source regions cover every STRING token stored with an unsafe value',
+                                     t, v, cls)
+                    if '\\' in body:
+                        lines.append('strD ' + enc(t))
+                        cases.append((t, v))
+        out = ctx.driver(lines) if ctx.model_ok else []
+        for (t, v), m in zip(cases, out):
+            if m != 'OK ' + enc(v):
+                ctx.disagree('stored value of a STRING token (exhaustive small scope)', t, v, dec_opt(m))
+        ctx.notes['image_exhaustive_max_body_length'] = n_max
+
     # == sheet level ==================================================================================
     CLAUSE_FIX = 'serialising the reparsed serialisation gives byte-identical text'
     CLAUSE_DOM = 'parsing the serialisation gives an equivalent DOM (rules, selectors, declarations, values, ' \
                  'priorities, media, import targets, comments)'
 
     def roundtrip(self, cssutils, sheet):
-        """(t1, t2, p1, p2) of a DOM; @variables are kept as rules (resolveVariables=False) when the sheet has any"""
+        """(t1, t2, p1, p2) of a DOM. The only non-default preference is resolveVariables=False: with the default the
+        serializer replaces var() by the variable's value and drops @variables rules, which is lossy by design."""
         try:
-            hasvars = any(r.type == S.RULE.VARIABLES_RULE for r in sheet.cssRules)
-            cssutils.ser.prefs.resolveVariables = not hasvars
+            cssutils.ser.prefs.resolveVariables = False
             with time_limit(30):
                 t1 = sheet.cssText
                 s2 = self.parser.parseString(t1)
@@ -325,7 +375,7 @@ class C03(Check):
         for how, raw in raws:
             cls = C.uri_class(raw) if how == 'uri' else (C.uri_class(raw) or C.str_class(raw))
             if cls:
-                regs.add('C03-raw-backslash-setter' if cls in ('bshex', 'bsnl', 'trail') else S.kf_for_class(cls))
+                regs.add(S.kf_for_class(cls, 'setter'))
             if S.bs_before_unencodable(raw, encoding):
                 regs.add('C03-backslash-before-unencodable')
         return regs
@@ -336,16 +386,15 @@ class C03(Check):
 
         def walk(rules):
             for r in rules:
-                if r.type == S.RULE.IMPORT_RULE and r.media.mediaText.lstrip().startswith('('):
-                    # the @import grammar of the parser wants the media list to start with an identifier
-                    regs.add('C03-import-media-paren')
-                elif r.type == S.RULE.MEDIA_RULE:
+                if r.type == S.RULE.MEDIA_RULE:
                     walk(r.cssRules)
                 elif r.type == S.RULE.PAGE_RULE:
                     for m in r.cssRules:
-                        if any(isinstance(i.value, cssutils.css.CSSComment) for i in m.style.seq):
-                            # the parser drops comments inside margin rules, so only an edit can put one there
-                            regs.add('C03-margin-rule-comment')
+                        # the @page parser re-reads a margin rule from its tokens WITHOUT white space and comments,
+                        # so only a DOM edit can put a comment or a calc() with `+`/`-` there
+                        toks = list(self.tk.tokenize(m.style.cssText))
+                        if any(t[0] == 'COMMENT' or (t[0] == 'FUNCTION' and t[1].lower() == 'calc(') for t in toks):
+                            regs.add('C03-margin-rule-edit')
         walk(sheet.cssRules)
         return regs
 
@@ -530,9 +579,14 @@ class C03(Check):
         import xml.dom
         css = cssutils.css
         known = sorted(regs)[0] if regs else None
-        if any(r.type == S.RULE.VARIABLES_RULE for r in sheet.cssRules):
-            ctx.count('setback:skipped (sheet has @variables: node texts depend on the variables rule)')
-            return
+        cssutils.ser.prefs.resolveVariables = False
+        try:
+            self.setback_(ctx, cssutils, sheet, regs, witness, css, known)
+        finally:
+            cssutils.ser.prefs.useDefaults()
+
+    def setback_(self, ctx, cssutils, sheet, regs, witness, css, known):
+        import xml.dom
 
         def check(kind, text, make, read, **extra):
             ctx.count('setback:' + kind)
@@ -627,9 +681,11 @@ class C03(Check):
         try:
             w = finding['witness']['data']
             sheet = self.parser.parseString(w['css'])
-            for ed in w.get('setters', []):
-                obj = sheet.cssRules[ed['rule']]
-                setattr(obj, ed['attr'], ed['value'])
+            for op in w.get('ops', []):
+                obj = sheet
+                for step in op['path']:
+                    obj = obj[step] if isinstance(step, int) else getattr(obj, step)
+                setattr(obj, op['attr'], op['value'])
             t1, t2, p1, p2 = self.roundtrip(cssutils, sheet)
             return not (t1 == t2 and p1 == p2)
         finally:
